@@ -7,6 +7,9 @@ from .core import coq_eval_many, parse_count_fail, proof_stage
 # relative envelope per n (all methods), measured against S = max_{k<=8} |f^(k)(x)|; calibrated on the unchanged tree
 # (tools/ndtcheck/exprs.py family, 4 x 40 expressions) with a margin of >= 100
 ENVELOPE = {0: 1e-11, 1: 1e-8, 2: 1e-6, 3: 1e-5, 4: 1e-4, 5: 1e-3, 6: 1e-2}
+# user-supplied nd.MinStepGenerator() left at its defaults: base step EPS**(1/default_scale), exactly as many steps as the rule needs (no extrapolation
+# margin), so the attainable accuracy is lower; relative envelope per n, calibrated on the unchanged tree (np.exp: 4e-10, 9e-8, 2e-6, 5e-5, 6e-4, 4e-3)
+ENVELOPE_MIN = {1: 1e-8, 2: 1e-6, 3: 1e-4, 4: 1e-3, 5: 1e-2, 6: 1e-1}
 NMAX = {'central': 6, 'forward': 6, 'backward': 6, 'complex': 6, 'multicomplex': 2}
 FUNCS = {'exp': np.exp, 'sin': np.sin, 'cubic': lambda x: x ** 3 + x ** 2, 'rational': lambda x: 1 / (1 + x * x), 'tanh': np.tanh, 'log1p': np.log1p,
          'atan': np.arctan}
@@ -63,6 +66,28 @@ def sweep(ctx, N):
                                           src, n, method, order, x0, got, float(D[n]), err, 100 * ENVELOPE[n], S),
                                       {'f': src, 'x': x0, 'n': n, 'method': method, 'order': order, 'got': got, 'exact': float(D[n]), 'local_scale': S,
                                        'how': 'import numpy as np, numdifftools as nd; nd.Derivative(lambda x: <f>, n=n, method=method, order=order)(x)'})
+                # the same call with a default-constructed MinStepGenerator (its base step comes from default_scale(method, n, order))
+                if method != 'multicomplex' and n >= 1:
+                    order = 2 if (done + n) % 2 else 4
+                    try:
+                        from .C02 import steps_of
+                        dmin = nd.Derivative(f, n=n, method=method, order=order, step=nd.MinStepGenerator())
+                        if steps_of(dmin, x0)[1] > 0.3 * max(1.0, abs(x0)):
+                            continue          # every step is used: the stencil must stay inside the disc on which f was checked to be tame
+                        got = float(np.ravel(dmin(x0))[0])
+                    except Exception as ex:   # noqa
+                        ctx.violation('raises-min-default:%s:%d' % (method, n), 'nd.Derivative(lambda x: %s, n=%d, method=%r, order=%d, step=nd.MinStepGenerator())(%r) raises %r' % (src, n, method, order, x0, ex),
+                                      {'f': src, 'x': x0, 'n': n, 'method': method, 'order': order})
+                        continue
+                    if not np.isfinite(got):
+                        continue
+                    ctx.count(1, ('sweep-min-default', method, n))
+                    err = abs(got - float(D[n]))
+                    if not err <= 100 * ENVELOPE_MIN[n] * S:
+                        ctx.violation('accuracy-min-default:%s:%d' % (method, n),
+                                      'nd.Derivative(lambda x: %s, n=%d, method=%r, order=%d, step=nd.MinStepGenerator())(%r) = %r, exact %r (error %.3g, envelope %.3g x local scale %.3g)' % (
+                                          src, n, method, order, x0, got, float(D[n]), err, 100 * ENVELOPE_MIN[n], S),
+                                      {'f': src, 'x': x0, 'n': n, 'method': method, 'order': order, 'step': 'nd.MinStepGenerator()', 'got': got, 'exact': float(D[n]), 'local_scale': S})
     ctx.cov['sweep_expressions'] = done
 
 
